@@ -81,7 +81,10 @@ def run(freq, amp, peak_f, mask, n, max_iterations, dist_fn, dist_mc, search_ran
             small = d <= 1e-12 * np.abs(top)
             if small.any():
                 same_inputs = np.all(rows[:, 1:] == rows[:, :-1], axis=0)
-                if np.any(small & ~same_inputs):
+                # only a near-flat step at the level of the top can change which maximum is the highest;
+                # rounding-level ripples far below it cannot
+                near_top = np.maximum(mc[1:], mc[:-1]) >= top * (1 - 1e-9)
+                if np.any(small & ~same_inputs & near_top):
                     worse("tie")
         return freq[idx]
 
